@@ -18,7 +18,7 @@ from ..engine.nandomain import F, NanInterp, nan
 from ..engine.report import AnalysisError, Run
 from ..engine.resolver import ClassInfo, FuncInfo, Program, body_walk
 from ..engine.util import canon, method_call, nodes_with_call, u
-from ._c06_util import Flow, HelperCalls, Site, lifted, names_eq, pruned, result_sites, seg, select_ifexp, spliced, src_patch, stmt_patch, unawait
+from ._c06_util import Flow, HelperCalls, Site, first_run_sync_name, lifted, names_eq, pruned, result_sites, seg, select_ifexp, spliced, src_patch, stmt_patch, unawait
 
 STEPS = "timeseries.formula_engine._formula_steps"
 EVAL = "timeseries.formula_engine._formula_evaluator"
@@ -568,7 +568,7 @@ def build_controls(prog: Program) -> list[tuple[str, str, str, str, str]]:
         add("Divider yields inf for a zero divisor", STEPS, stmt_patch(dv, x, lambda t: t.replace("math.nan", "math.inf", 1)), "C13.UNDEF")
         break
     # the synchronisation drains a stream behind the fetcher's back
-    sy = prog.func(f"{EVAL}:FormulaEvaluator._synchronize_metric_timestamps")
+    sy = prog.func(f"{EVAL}:FormulaEvaluator.{first_run_sync_name(prog)}")
     for c in calls_in(sy, lambda c: isinstance(c.func, ast.Attribute) and c.func.attr == "fetch_next")[:1]:
         txt, base = seg(sy.module, c), seg(sy.module, c.func.value)  # type: ignore[union-attr]
         add("synchronisation reads the raw stream", EVAL, stmt_patch(sy, c, lambda t: t.replace(txt, f"{base}.stream.receive()", 1)), "C13.READ")
